@@ -1,4 +1,4 @@
-(* Packet validation of gneiss-mqtt: validate.rs:48-237 (dispatchers, length helpers, the three
+(* Packet validation of gneiss-mqtt: validate.rs:48-249 (dispatchers, length helpers, the three
    ack macros) and the per-packet validate_*_outbound / _outbound_internal / _inbound_internal
    functions of mqtt/{auth,connack,connect,disconnect,publish,subscribe,unsubscribe}.rs and the
    macro instances in mqtt/{puback,pubrec,pubrel,pubcomp,suback,unsuback}.rs.
@@ -19,16 +19,25 @@ Open Scope N_scope.
 
 Definition vfail {A} : outcome A := Err EPacketValidationFailure.
 
-(* validate_string_length 136-144 / validate_optional_string_length 146-156 /
-   validate_optional_binary_length 158-168 *)
+(* validate_string_length / validate_optional_string_length / validate_optional_binary_length.
+   After fix cbc2d52 of D28 the two STRING helpers also reject a value that contains U+0000
+   (`value.contains('\0')`, second check, same error kind); binary fields are not strings. *)
 Definition validate_string_length (s : bytes) : outcome unit :=
-  if MAXIMUM_STRING_PROPERTY_LENGTH <? len s then vfail else Ok tt.
+  if MAXIMUM_STRING_PROPERTY_LENGTH <? len s then vfail
+  else if contains_nul s then vfail
+  else Ok tt.
 Definition validate_optional_string_length (o : option bytes) : outcome unit :=
-  match o with Some s => if MAXIMUM_STRING_PROPERTY_LENGTH <? len s then vfail else Ok tt | None => Ok tt end.
+  match o with
+  | Some s =>
+      if MAXIMUM_STRING_PROPERTY_LENGTH <? len s then vfail
+      else if contains_nul s then vfail
+      else Ok tt
+  | None => Ok tt
+  end.
 Definition validate_optional_binary_length (o : option bytes) : outcome unit :=
   match o with Some s => if MAXIMUM_BINARY_PROPERTY_LENGTH <? len s then vfail else Ok tt | None => Ok tt end.
 
-(* validate_optional_integer_non_zero! 170-180 *)
+(* validate_optional_integer_non_zero! 182-192 *)
 Definition validate_optional_integer_non_zero (o : option N) : outcome unit :=
   match o with Some v => if v =? 0 then vfail else Ok tt | None => Ok tt end.
 
@@ -48,7 +57,7 @@ Definition validate_user_properties (o : option (list user_property)) : outcome 
 (* ------------------------------------------------------------------------------------------ *)
 (* static validation: validate_packet_outbound 67-86                                           *)
 
-(* validate_ack_outbound! 184-195 *)
+(* validate_ack_outbound! 196-207 *)
 Definition validate_ack_outbound (a : ack) : outcome unit :=
   do _ <- validate_optional_string_length (ack_reason a);
   validate_user_properties (ack_up a).
@@ -167,7 +176,7 @@ Definition check_packet_size (st : option settings) (p : packet) (r : resolution
       if st_maximum_packet_size_to_server s <? total_packet_length then vfail else Ok s
   end.
 
-(* validate_ack_outbound_internal! 199-220 *)
+(* validate_ack_outbound_internal! 211-232 *)
 Definition validate_ack_outbound_internal (st : option settings) (p : packet) (a : ack) : outcome unit :=
   do _ <- check_packet_size st p no_resolution;
   if ack_pid a =? 0 then vfail else Ok tt.
@@ -273,7 +282,7 @@ Definition validate_publish_packet_inbound_internal (p : publish) : outcome unit
   else if (pub_pid p =? 0) && negb (pub_qos p =? 0) then vfail
   else Ok tt.
 
-(* validate_ack_inbound_internal! 224-237 *)
+(* validate_ack_inbound_internal! 236-249 *)
 Definition validate_pid_nonzero (pid : N) : outcome unit := if pid =? 0 then vfail else Ok tt.
 
 Definition validate_inbound_internal (st : option settings) (p : packet) : outcome unit :=
